@@ -198,6 +198,91 @@ elif name == "getitemlocal":   # N: __getitem__ builds the state in a local firs
                  "pandas_nulls": self.pandas_nulls, "fmd": fmd, "open": self.open, "fn": self.fn}
         new_pf = object.__new__(ParquetFile)
         new_pf.__setstate__(state, helper=self.schema)''')
+# ---- wave 3: shared state outside the handle, file position, derived-handle aliasing -------------------------------
+elif name == "defaultbuf":     # writer: the 10-byte run-header array lives in a DEFAULT ARGUMENT (shared by all calls)
+    sub("writer.py", '''def make_definitions(data, no_nulls, datapage_version=1):''',
+        '''def make_definitions(data, no_nulls, datapage_version=1, _hdr=np.empty(10, dtype=np.uint8)):''')
+    sub("writer.py", '''    buf = np.empty(10, dtype=np.uint8)
+    temp = NumpyIO(buf)
+
+    if no_nulls:''', '''    buf = _hdr
+    temp = NumpyIO(buf)
+
+    if no_nulls:''')
+elif name == "funcattrbuf":    # writer: the run-header array is an attribute of the function object
+    sub("writer.py", '''    buf = np.empty(10, dtype=np.uint8)
+    temp = NumpyIO(buf)
+
+    if no_nulls:''', '''    buf = make_definitions._hdr
+    temp = NumpyIO(buf)
+
+    if no_nulls:''')
+    sub("writer.py", '''DATAPAGE_VERSION = 2 if''', '''make_definitions._hdr = np.empty(10, dtype=np.uint8)
+DATAPAGE_VERSION = 2 if''')
+elif name == "rgcache":        # api: filter_row_groups memoises its answer in a module-level dict keyed by the handle only
+    sub("api.py", '''PART_ID = re.compile''', '''_RG_SEL = {}
+PART_ID = re.compile''')
+    sub("api.py", '''    if as_idx:
+        return [i for i, rg in enumerate(pf.row_groups) if any([''', '''    if as_idx:
+        if id(pf) not in _RG_SEL:
+            _RG_SEL[id(pf)] = [i for i, rg in enumerate(pf.row_groups) if any([
+                   not(filter_out_stats(rg, and_filters, pf.schema)) and
+                   not(filter_out_cats(rg, and_filters, pf.partition_meta))
+                   for and_filters in filters])]
+        return _RG_SEL[id(pf)]
+        return [i for i, rg in enumerate(pf.row_groups) if any([''')
+elif name == "modfile":        # api: open data files kept in a module-level dict keyed by path (one file position for all)
+    sub("api.py", '''PART_ID = re.compile''', '''_OPEN_FILES = {}
+PART_ID = re.compile''')
+    sub("api.py", '''            infile = self.open(self.fn, 'rb')
+        else:
+            infile = None
+        for rg, sel in zip(rgs, selected):''', '''            if self.fn not in _OPEN_FILES:
+                _OPEN_FILES[self.fn] = self.open(self.fn, 'rb')
+            infile = _OPEN_FILES[self.fn]
+        else:
+            infile = None
+        for rg, sel in zip(rgs, selected):''')
+elif name == "closurefile":    # api: the open data file lives in the closure of a callable kept on the handle
+    sub("api.py", '''            infile = self.open(self.fn, 'rb')
+        else:
+            infile = None
+        for rg, sel in zip(rgs, selected):''', '''            if getattr(self, "_opener", None) is None:
+                f_ = self.open(self.fn, 'rb')
+                self._opener = lambda: f_
+            infile = self._opener()
+        else:
+            infile = None
+        for rg, sel in zip(rgs, selected):''')
+elif name == "slicealias":     # api: a derived handle inherits (aliases) the parent's statistics cache
+    sub("api.py", '''        new_pf._set_attrs(self.schema)
+        return new_pf''', '''        new_pf._set_attrs(self.schema)
+        new_pf._statistics = self._statistics
+        return new_pf''')
+elif name == "globalcount":    # api: a module-level call counter bumped by every read (augmented assignment on a global)
+    sub("api.py", '''PART_ID = re.compile''', '''_READS = 0
+PART_ID = re.compile''')
+    sub("api.py", '''        rgs = filter_row_groups(self, filters) if filters else self.row_groups''', '''        global _READS
+        _READS += 1
+        rgs = filter_row_groups(self, filters) if filters else self.row_groups''')
+elif name == "defaultnone":    # N: a mutable default replaced by the None idiom
+    sub("api.py", '''def filter_out_cats(rg, filters, partition_meta={}):''', '''def filter_out_cats(rg, filters, partition_meta=None):
+    partition_meta = {} if partition_meta is None else partition_meta''')
+elif name == "sepscache":      # N: the regex memo of util.ex_from_sep rewritten with dict.setdefault
+    sub("util.py", '''    if sep not in seps:''', '''    if seps.get(sep) is None:''')
+elif name == "nocopyhook":     # revert the __copy__ fix: what copy.copy does by default (new object + __setstate__(__getstate__()))
+    sub("api.py", '''        return self[:]
+
+    def __len__(self):''', '''        new = object.__new__(type(self))
+        new.__setstate__(self.__getstate__())
+        return new
+
+    def __len__(self):''')
+elif name == "schemadefault":  # revert fix 188c30f: indentation stack of schema_to_text in a mutable default argument
+    sub("schema.py", '''def schema_to_text(root, indent=None):''', '''def schema_to_text(root, indent=[]):''')
+    sub("schema.py", '''    if indent is None:
+        indent = []
+''', '''''')
 else:
     raise SystemExit("unknown mutant " + name)
 print("patched", name)
